@@ -367,8 +367,7 @@ class FnA:
             # rewritten by callees, so do not fold through its initialiser.  It is named
             # after its type (`~NodeQueue.extra`), not after the variable, so that renaming
             # the variable changes no term.
-            nm = self.body.local_name(l) if 1 <= l <= self.body.arg_count else self.type_name(l)
-            return self._project(("param", nm), proj, bi, pos, depth, seen)
+            return self._project(("param", self.escaped_name(l)), proj, bi, pos, depth, seen)
         base = self.origin_local(l, bi, pos, depth, seen)
         # partial definitions (`_x.f = v`) reaching here refine the field
         if proj:
@@ -383,6 +382,21 @@ class FnA:
                 terms.append(self._project(base, proj, bi, pos, depth, seen))
                 return mkjoin(terms)
         return self._project(base, proj, bi, pos, depth, seen)
+
+    def escaped_name(self, l):
+        """name under which a user variable whose address escapes by `&mut` appears in terms: a
+        parameter keeps its name — also when it was first moved out of the coroutine state into a
+        local — anything else is named after its type (`~NodeQueue`)"""
+        if 1 <= l <= self.body.arg_count:
+            return self.body.local_name(l)
+        ds = [d for d in self.body.defs.get(l, []) if not d[3]["p"]]
+        if len(ds) == 1 and ds[0][0] == "assign" and ds[0][4]["k"] == "use":
+            src = op_place(ds[0][4]["op"])
+            if src is not None:
+                up = self.upvar_name(src)
+                if up is not None and not up[1]:
+                    return up[0]
+        return self.type_name(l)
 
     def type_name(self, l):
         ty = self.body.local_ty(l)
